@@ -6,12 +6,15 @@ from checks import evbuffer_common as ec
 
 EMPTY_Q = {"n": 0, "c": "", "co": "", "sf": [""], "pk": [""], "pa": [-1], "se": [[-1]] * 5, "sr": [], "el": [[[-1, 0]]] * 5,
            "fr": [0, 0]}
-ACTS = {"add", "addref", "prepend", "printf", "addiov", "rescommit", "addbuf", "prependbuf", "rmbuf", "addbufref", "addfile",
+ACTS = {"add", "addref", "prepend", "printf", "rescommit", "addbuf", "prependbuf", "rmbuf", "addbufref", "addfile",
         "drain", "remove", "pullup", "expand", "readln"}
 CB = {"cbadd", "cbdel", "cbflag"}
 # open findings, keyed by the operation whose allocation failed
 KNOWN = {"rmbuf": "allocfail-remove-buffer-loses-bytes", "addbufref": "allocfail-add-buffer-reference-silent",
          "prepend": "allocfail-prepend-partial"}
+
+
+absorbed = []      # set by judge(): the faulted call matched the success prediction (the failure was absorbed)
 
 
 def failure_alternatives(st, prev_q, cbmode):
@@ -34,18 +37,21 @@ def failure_alternatives(st, prev_q, cbmode):
     return alts
 
 
-def judge(h, out, cbmode):
+def judge(h, out, cbmode, stopfault=False):
     """Returns None or (step, message, op-name-of-faulted-step)."""
     if out is None:
         return (-1, "no driver output", None)
     if "crash" in out:
         return (-1, "driver crashed: " + out["crash"], None)
     steps = out["obs"]
+    del absorbed[:]
     prev_q = [EMPTY_Q, EMPTY_Q]
     prev_af = 0
     diverged = False
     for k, st in enumerate(h):
         if k >= len(steps):
+            if diverged or (stopfault and prev_af):
+                break
             return (k, "driver stopped early", None)
         act = steps[k]
         sc = ec.side_conditions(act)
@@ -58,6 +64,8 @@ def judge(h, out, cbmode):
         d = vkit.deep_diff(st["o"], act, "step%d(%s)" % (k, st["a"]))
         if d is None:
             prev_q = st["o"]["q"]
+            if faulted and stopfault:
+                absorbed.append(True)
             continue
         if not faulted:
             return (k, d, None)
@@ -106,13 +114,14 @@ def run(tier, seed):
             if not o or "crash" in o:
                 continue
             for n in range(1, int(o.get("allocs", 0)) + 1):
-                scen.append({"cfg": ec.drv_cfg(c, failn=n), "h": ec.strip_obs(h)})
+                scen.append({"cfg": ec.drv_cfg(c, failn=n, stopfault=1), "h": ec.strip_obs(h)})
                 idx.append((i, n))
         outs2 = vkit.run_driver(exe, scen)
         chk.cov["traces_validated_against_impl"] += len(scen)
         nfault += len(scen)
         reported = 0
-        for (i, n), o in zip(idx, outs2):
+        verdicts, again = {}, []
+        for j, ((i, n), o) in enumerate(zip(idx, outs2)):
             h = hs[i]
             chk.count_case([c["WA"], c["WB"], n, ec.strip_obs(h)], True)
             if o and "obs" in o:
@@ -121,7 +130,16 @@ def run(tier, seed):
                     if s["af"] != af:
                         faulted_ops[h[k]["a"]] = faulted_ops.get(h[k]["a"], 0) + 1
                         break
-            v = judge(h, o, c["CbMode"])
+            v = judge(h, o, c["CbMode"], stopfault=True)
+            if not v and absorbed:
+                again.append(j)      # the library absorbed the failure: the rest of the history must still conform exactly
+            verdicts[j] = v
+        outs3 = vkit.run_driver(exe, [{"cfg": ec.drv_cfg(c, failn=idx[j][1]), "h": ec.strip_obs(hs[idx[j][0]])} for j in again])
+        chk.cov["traces_validated_against_impl"] += len(again)
+        for j, o2 in zip(again, outs3):
+            verdicts[j] = judge(hs[idx[j][0]], o2, c["CbMode"])
+        for j, (i, n) in enumerate(idx):
+            v, h = verdicts[j], hs[i]
             if v:
                 k, msg, opname = v
                 key = KNOWN.get(opname)
@@ -144,9 +162,9 @@ def run(tier, seed):
                        "n-th allocation the library makes (event_set_mem_functions counting allocator, armed only inside the calls) "
                        "failing. The step in which the failure happened must match either the specification's success observation "
                        "or (failure return value, both buffers' complete query battery identical to the previous step, no callback); "
-                       "steps before it must match the specification exactly; steps after a reported failure are checked against "
-                       "the chain validator / ASan / leak counter only. faulted_ops = calls in which a failure was injected.")
+                       "steps before it must match the specification exactly; teardown must not leak (allocation counter) or trip "
+                       "ASan. faulted_ops = calls in which a failure was injected.")
     chk.assumptions += ["allocations are failed one at a time (single fault per run)",
-                        "after a reported failure the rest of the history is checked for structural consistency only",
-                        "evbuffer_add_iovec may add a prefix of whole vectors (its return value says how much)"]
+                        "after a reported failure (buffers verified unchanged) the history stops and the buffers are torn down; when the library absorbs the failure the whole history is replayed and compared",
+                        "evbuffer_add_iovec (may legitimately add a prefix of its vectors) is exercised by C12 only"]
     return chk.finish()
